@@ -517,6 +517,8 @@ pub fn scenario(name: &str, params: &Value) -> Scenario {
                         if s.m.unreleased.contains(&pid) || s.m.inbox.iter().any(|p| matches!(p, SPacket::Publish { pid: Some(q), qos: 2, .. } if *q == pid)) {
                             if !s.m.inbox.iter().any(|p| matches!(p, SPacket::Ack { ty: 6, pid: q, .. } if *q == pid)) {
                                 e.push(Ev::Deliver(pubrel_in(pid)));
+                                // (a PUBREL may carry a reason - 0x92 - and properties: it releases all the same)
+                                e.push(Ev::Deliver(SPacket::Ack { ty: 6, pid, reason: 0x92, props: vec![], form: 3 }));
                             }
                         } else {
                             e.push(Ev::Deliver(inbound(2, false, pid, &[ids[0]], &format!("x{}", n))));
